@@ -28,6 +28,9 @@ type C16Case struct {
 	TmpOther bool `json:"tmpother,omitempty"`
 	// after every crash point a second, complete save of a shorter test case of the same test goes into the same directory
 	Again bool `json:"again,omitempty"`
+	// ... and all children of the case have the same process id (each is process 1 of a PID namespace of its own, if the
+	// harness may create one)
+	SamePID bool `json:"samepid,omitempty"`
 }
 
 // otherFSDir creates a directory on a file system other than the one of the working directory, or returns "".
@@ -87,6 +90,7 @@ func (c16) Gen(dt *drv.T, c *Ctx) any {
 	cs.PreDir = drv.Bool().Draw(dt, "predir")
 	cs.TmpOther = drv.Bool().Draw(dt, "tmpother")
 	cs.Again = chance(dt, "again", 25)
+	cs.SamePID = cs.Again && drv.Bool().Draw(dt, "samepid")
 	return cs
 }
 
@@ -124,6 +128,8 @@ func (c16) Run(c *Ctx, csAny any) Outcome {
 		}
 	}
 
+	traceSamePID = cs.SamePID
+	defer func() { traceSamePID = false }()
 	// run 0: no crash; counts the crash points and yields the reference file
 	d0 := EnterCaseDir()
 	r0 := traceChild(0, argv, env, d0)
@@ -159,18 +165,19 @@ func (c16) Run(c *Ctx, csAny any) Outcome {
 	// a later, uninterrupted and shorter save of the same test into the directory a killed save left behind: whatever
 	// the killed one left under temporary names must not end up inside a file that is picked up
 	short := *cs
-	short.Lines, short.Words, short.OnlyK = nil, 1, 0
+	short.Lines, short.Words, short.OnlyK = nil, cs.Words+30, 0 // more words than an earlier file of this case holds: the later run cannot use that file and saves its own
 	envShort := childEnv(&short)
 	if tmpOther != "" {
 		envShort = append(envShort, "TMPDIR="+tmpOther)
 	}
-	refShort := ""
+	refShort, shortK := "", 0
 	if cs.Again {
 		ds := EnterCaseDir()
 		rs := traceChild(0, argv, envShort, ds)
 		if fs := FailFiles(); rs.Err == nil && len(fs) == 1 {
 			b, _ := os.ReadFile(fs[0])
 			refShort = normalizeFailFile(b)
+			shortK = rs.Count
 		}
 		LeaveCaseDir(ds)
 	}
@@ -229,13 +236,33 @@ func (c16) Run(c *Ctx, csAny any) Outcome {
 			}
 		}
 		if viol == nil && refShort != "" {
-			// (the later save gets a file name of its own: names carry the process id)
-			if ra := traceChild(0, argv, envShort, dk); ra.Err == nil {
+			// (the later save gets a file name of its own unless it has the same process id within the same second)
+			leftover := len(fails) > 0 && len(all) > len(fails)
+			laterOK := func(what string, j int) *Violation {
 				for _, f := range FailFiles() {
 					b, _ := os.ReadFile(f)
 					if n := normalizeFailFile(b); n != ref && n != refShort {
-						viol = violf("C16:partial-data-in-later-fail-file", "name %q: a save was killed before fs call %d/%d (%s); after a later, complete save of a shorter test case into the same directory, %s (%d bytes) is neither of the two complete files", name, k, K, rk.Name, filepath.Base(f), len(b))
+						return violf("C16:partial-data-in-later-fail-file", "name %q: a save was killed before fs call %d/%d (%s); %s (kill point %d), %s (%d bytes) is neither of the two complete files", name, k, K, rk.Name, what, j, filepath.Base(f), len(b))
 					}
+				}
+				return nil
+			}
+			if ra := traceChild(0, argv, envShort, dk); ra.Err == nil {
+				viol = laterOK("after a later, complete save of another test case into the same directory", 0)
+			}
+			if viol == nil && leftover {
+				// the killed save left a temporary file next to its published file: a later save that is itself killed
+				// anywhere must not touch the published one
+				c.Stats.Classes["crash-state:temporary-file-next-to-final-file"]++
+				for j := 1; j <= shortK && viol == nil; j++ {
+					dj := EnterCaseDir()
+					if cs.PreDir {
+						_ = os.MkdirAll(refDir, 0o775)
+					}
+					traceChild(k, argv, env, dj)
+					traceChild(j, argv, envShort, dj)
+					viol = laterOK("after a later save into the same directory that was killed as well", j)
+					LeaveCaseDir(dj)
 				}
 			}
 		}
@@ -258,6 +285,9 @@ func (c16) Run(c *Ctx, csAny any) Outcome {
 	}
 	if refShort != "" {
 		out.Classes = append(out.Classes, "later-save-into-the-same-directory")
+		if cs.SamePID && !traceSamePIDUnusable {
+			out.Classes = append(out.Classes, "all-saves-by-processes-with-the-same-pid")
+		}
 	}
 	return out
 }
